@@ -718,6 +718,11 @@ func DependencyCases() []*Case {
 			out = append(out, &Case{ID: fmt.Sprintf("dependency:%s:%s", dep, kind), Family: "dependencies", Coord: "dependencies|" + dep, P: &Program{Files: []*File{jf, df}}})
 		}
 	}
+	// sibling directories with the same type names, through the tool's own dependency set
+	for _, c := range SiblingDependencyBundles() {
+		c.ID, c.Family, c.Coord = strings.Replace(c.ID, "bundle:", "dependency:", 1), "dependencies", "dependencies|siblings"
+		out = append(out, c)
+	}
 	return out
 }
 
@@ -1202,6 +1207,38 @@ func PipelineCases() []*Case {
 		f.Add(w)
 		f.Add(&Service{Name: "Pick", BasePath: "/t/v1", Methods: []*Method{{Name: "Pick", Verb: "POST", Path: "/pick", Request: []*Field{fld("choice", RefTo(w, ""))}, HasResponse: true}}})
 		add("recursive-oneof-request", f)
+	}
+	return out
+}
+
+// SiblingDependencyBundles: external dependencies whose directories are textual prefixes of one
+// another (d/v1, d/v1beta1, d/v10, d/v1/sub) and declare types with the same simple names; the
+// local file refers to the types of d.v1 only. Offered through the tool's own dependency set.
+func SiblingDependencyBundles() []*Case {
+	var out []*Case
+	for _, kind := range []string{"object", "enum"} {
+		mk := func(dir, name string, field string) (*File, *Decl) {
+			df := &File{Dir: dir, Name: name, IsProto: true, IsDep: true}
+			var d *Decl
+			if kind == "enum" {
+				d = enumD("Shared", "ONE", strings.ToUpper(field))
+			} else {
+				d = obj("Shared", fld(field, T(TString)))
+			}
+			df.Add(d)
+			return df, d
+		}
+		main, target := mk("d/v1", "types", "name")
+		more := &File{Dir: "d/v1", Name: "more", IsProto: true, IsDep: true}
+		moreT := obj("More", fld("x", T(TString)))
+		more.Add(moreT)
+		beta, _ := mk("d/v1beta1", "types", "beta")
+		ten, _ := mk("d/v10", "types", "ten")
+		sub, _ := mk("d/v1/sub", "types", "sub")
+		jf := file("t/v1", "a")
+		jf.Imports = []Import{{Pkg: "d.v1", Alias: "dep"}}
+		jf.Add(obj("User", fld("ref", RefTo(target, "dep")), fld("refs", ArrayOf(RefTo(target, "dep"))), fld("more", RefTo(moreT, "dep"))))
+		out = append(out, &Case{ID: "bundle:sibling-dependencies:" + kind, Family: "bundles", Coord: "bundles|sibling-dependencies", P: &Program{Files: []*File{jf, main, more, beta, ten, sub}, ImageDeps: true}})
 	}
 	return out
 }
